@@ -90,7 +90,7 @@ PROPS = {
                 "profile memo: two memoised functions (templates over outer vars and the key) called from top level and from bind bodies incl. a nested "
                 "bind, returned nodes observed / handles dropped, binds re-run by writes, stabilises in between, final drop of everything; "
                 "non-trivial = distinct history in which a memoised function ran"),
-    "C13": spec(["IncrVerif.Props.C13"], [("general", 0.3), ("bind", 0.3), ("subs", 0.2), ("expert", 0.2)],
+    "C13": spec(["IncrVerif.Props.C13", "IncrVerif.Props.C13History"], [("general", 0.3), ("bind", 0.3), ("subs", 0.2), ("expert", 0.2)],
                 ["api", "read", "ev-propagation"],
                 GEN + "each base history is turned into one variant per user-closure invocation (node function, fold pass, map_with_old, bind "
                 "closure, cutoff function, edge callback, expert recompute, update handler) of one or two of its stabilises: a panic is armed at "
